@@ -21,7 +21,9 @@ def entries():
         p = os.path.join(sd, d, "patch.diff")
         m = os.path.join(sd, d, "meta.json")
         if os.path.exists(p) and os.path.exists(m):
-            out.append((d, json.load(open(m))["property"], p))
+            # a later library fix may have rewritten the lines a change touches: the change carried over by hand is used then
+            reb = sorted(f for f in os.listdir(os.path.join(sd, d)) if f.startswith("patch_rebased_on_") and f.endswith(".diff"))
+            out.append((d, json.load(open(m))["property"], os.path.join(sd, d, reb[-1]) if reb else p))
     md = os.path.join(VERIF, "mutants")
     for f in sorted(os.listdir(md)) if os.path.isdir(md) else []:
         if f.endswith(".patch"):
